@@ -40,7 +40,25 @@ def si_classes(obligation):
         if f.get("obligation") == obligation or obligation in f.get("obligations", []):
             for cl in f.get("classes", []):
                 out.append({"finding": f["id"], "class": cl})
+    for u in unproved_classes():
+        if obligation in u.get("obligations", []):
+            for cl in u.get("classes", []):
+                out.append({"finding": "NOT-PROVED:" + u["id"], "class": cl})
     return out
+
+
+_unproved = None
+
+
+def unproved_classes():
+    """Input classes on which an obligation is neither proved nor claimed to fail (vf/contracts/si_unproved_classes.json)."""
+    global _unproved
+    if _unproved is None:
+        try:
+            _unproved = json.load(open(os.path.join(ROOT, "vf", "contracts", "si_unproved_classes.json"))).get("classes", [])
+        except FileNotFoundError:
+            _unproved = []
+    return _unproved
 
 
 def findings_for(prop):
